@@ -493,6 +493,13 @@ struct DirTourist {
 	filter: IgnoreFilter,
 }
 
+fn is_vcs_metadata_dir(path: &Path) -> bool {
+	matches!(
+		path.file_name().and_then(|name| name.to_str()),
+		Some(".git" | ".hg" | ".bzr" | "_darcs" | ".fossil-settings" | ".svn" | ".pijul")
+	)
+}
+
 #[derive(Debug)]
 enum Visit {
 	Find(PathBuf),
@@ -607,7 +614,9 @@ impl DirTourist {
 			match entry.file_type().await {
 				Ok(ft) => {
 					if ft.is_dir() {
-						if !self.filter.check_dir(&path) {
+						// VCS metadata directories are never entered, whatever the ignore files say
+						// (a negated pattern on a parent directory would otherwise re-include them)
+						if is_vcs_metadata_dir(&path) || !self.filter.check_dir(&path) {
 							trace!("path is ignored, adding to skip list");
 							self.skip(path);
 							continue;
